@@ -5,6 +5,8 @@
    `text = pre ++ post` with offset `byteLen pre` (UTF-8 bytes). -/
 import JrsVerif.Proofs.Loc
 import JrsVerif.Proofs.Tile
+import JrsVerif.Proofs.LocTrace
+import JrsVerif.Proofs.LocStrBlock
 
 namespace JrsVerif.Loc
 open Spec
@@ -149,6 +151,109 @@ example : Boundaries "é\nx".toList [3, 0, 3, 2, 4] := by
   · exact ⟨"é".toList, "\nx".toList, by decide, by decide⟩
   · exact ⟨"é\nx".toList, [], by decide, by decide⟩
 
+/-! ### traces whose frames live in different files (`CompactFormat::write_trace`) -/
+
+/-- C17.6  every frame's printed position is a function of ITS OWN file text and span only: the
+    position printed for element `i` of a trace is `frameLoc` of that element's text and span,
+    whatever the other elements are (other files, equal byte offsets in other files, …). -/
+theorem frames_independent (fs : List (Option Frame × String)) (i : Nat) :
+    (framePositions fs)[i]? = (fs[i]?).map (fun p => p.1.map (fun f => frameLoc f.text f.a f.b)) := by
+  simp [framePositions]
+
+/-- the same frame (same file text, same span) is printed at the same position in any two traces,
+    at any depth, next to any other frames -/
+theorem frames_independent_of_trace (fs gs : List (Option Frame × String)) (i j : Nat) (f g : Frame)
+    (d d' : String) (hi : fs[i]? = some (some f, d)) (hj : gs[j]? = some (some g, d'))
+    (ht : f.text = g.text) (ha : f.a = g.a) (hb : f.b = g.b) :
+    (framePositions fs)[i]? = (framePositions gs)[j]? := by
+  simp [framePositions, hi, hj, ht, ha, hb]
+
+/-- C17.7  a located frame whose span is `[|pre₁|, |pre₂|)` of its own file `pre₁ ++ post₁` is printed
+    with the reference line and column of `pre₁` IN THAT FILE, wherever it stands in the trace -/
+theorem frame_start_spec (fs : List (Option Frame × String)) (i : Nat) (path d : String)
+    (pre₁ post₁ pre₂ post₂ : List Char) (h : pre₁ ++ post₁ = pre₂ ++ post₂)
+    (hi : fs[i]? = some (some ⟨path, pre₁ ++ post₁, byteLen pre₁, byteLen pre₂⟩, d)) :
+    ∃ p, (framePositions fs)[i]? = some (some p) ∧
+      p.startLine = Spec.line pre₁ ∧ p.startCol = Spec.column pre₁ := by
+  refine ⟨printCodeLocation (Spec.locate pre₁ post₁) (Spec.locate pre₂ post₂), ?_, print_start ..⟩
+  simp [frames_independent, hi, frameLoc_eq_spec pre₁ post₁ pre₂ post₂ h]
+
+/-- two frames with the SAME byte offsets in two different files are printed at their own, different
+    positions (the situation a position cache keyed by offsets alone gets wrong) -/
+example :
+    framePositions [(some ⟨"lib", "\n\n  error 1".toList, 4, 9⟩, "error statement"),
+                    (some ⟨"main", "f = (1,2)".toList, 4, 9⟩, "function <f> call")] =
+      [some (.sameLine 3 3 9), some (.sameLine 1 5 11)] := by
+  have h1 := frameLoc_eq_spec "\n\n  ".toList "error 1".toList "\n\n  error".toList " 1".toList (by decide)
+  have h2 := frameLoc_eq_spec "f = ".toList "(1,2)".toList "f = (1,2)".toList [] (by decide)
+  have t1 : "\n\n  ".toList ++ "error 1".toList = "\n\n  error 1".toList := by decide
+  have t2 : "f = ".toList ++ "(1,2)".toList = "f = (1,2)".toList := by decide
+  have b1 : byteLen "\n\n  ".toList = 4 := by decide
+  have b2 : byteLen "\n\n  error".toList = 9 := by decide
+  have b3 : byteLen "f = ".toList = 4 := by decide
+  have b4 : byteLen "f = (1,2)".toList = 9 := by decide
+  rw [t1, b1, b2] at h1
+  rw [t2, b3, b4] at h2
+  simp only [framePositions, List.map, Option.map, h1, h2]
+  decide
+
+/-- one line per trace element below the message -/
+theorem writeTrace_length (p : Nat) (msg : String) (fs : List (Option Frame × String)) :
+    (writeTrace p msg fs).length = fs.length + 1 := by
+  simp [writeTrace, fileNames]
+
+/-- C17.8  the text of line `i + 1`: padding, the frame's own `path:position:` padded to the common
+    width, a blank, the description -/
+theorem writeTrace_line (p : Nat) (msg : String) (fs : List (Option Frame × String)) (i : Nat)
+    (f : Frame) (d : String) (hi : fs[i]? = some (some f, d)) :
+    (writeTrace p msg fs)[i + 1]? =
+      some (spaces p ++ padRight (f.path ++ ":" ++ (frameLoc f.text f.a f.b).render ++ ":")
+              (alignOf (fileNames fs)) ++ " " ++ d) := by
+  simp only [writeTrace, fileNames, List.getElem?_cons_succ, List.getElem?_map,
+    List.getElem?_zip_eq_some, Option.map_eq_some_iff]
+  exact ⟨((some f, d), some (frameName f)), ⟨hi, by simp [hi]⟩, by simp [traceLine, frameName]⟩
+
+/-- C17.9  a syntax error inside the text (`ImportSyntaxError` branch of `write_trace`) is printed at
+    the reference line and column of its offset -/
+theorem syntax_error_inside (pre post : List Char) (hpost : post ≠ []) :
+    syntaxErrorLoc (pre ++ post) (byteLen pre) = .point (Spec.line pre) (Spec.column pre) := by
+  have hlt : ¬ byteLen pre ≥ byteLen (pre ++ post) := by
+    have := byteLen_pos_of_ne_nil post hpost
+    rw [byteLen_append]; omega
+  simp [syntaxErrorLoc, hlt, locFn_single, printCodeLocation, Spec.locate]
+
+/-- a syntax error at (or past) the end of a text that ends in a one-byte character other than a
+    newline is printed at the reference position of the END of the text (the code maps the last
+    byte and adds one to the column) -/
+theorem syntax_error_eof (pre : List Char) (c : Char) (hc : c.utf8Size = 1) (hnl : c ≠ '\n')
+    (o : Nat) (ho : o ≥ byteLen (pre ++ [c])) :
+    syntaxErrorLoc (pre ++ [c]) o =
+      .point (Spec.line (pre ++ [c])) (Spec.column (pre ++ [c])) := by
+  have hl : byteLen (pre ++ [c]) - 1 = byteLen pre := by
+    rw [byteLen_append]; simp [byteLen, hc]
+  simp only [syntaxErrorLoc, ho, decide_true, if_true, hl, locFn_single, printCodeLocation,
+    line_snoc pre c hnl, column_snoc pre c hnl]
+  simp [Spec.locate]
+
+example : syntaxErrorLoc "local x = \"é\"".toList 14 = .point 1 14 := by
+  have h := syntax_error_eof "local x = \"é".toList '"' (by decide) (by decide) 14 (by decide)
+  have t : "local x = \"é".toList ++ ['"'] = "local x = \"é\"".toList := by decide
+  rw [t] at h; rw [h]; decide
+
+/-! ### JsFormat (`at desc (path:line:column)`) -/
+
+/-- C17.10  `JsFormat` prints the line and the 1-based column of the span's start (repaired: it used
+    to print the record's raw column, one too large) -/
+theorem jsColumn_spec (pre₁ post₁ pre₂ post₂ : List Char) (h : pre₁ ++ post₁ = pre₂ ++ post₂) :
+    jsFrameLoc (pre₁ ++ post₁) (byteLen pre₁) (byteLen pre₂) = (Spec.line pre₁, Spec.column pre₁) := by
+  have hv : Boundaries (pre₁ ++ post₁) [byteLen pre₁, byteLen pre₂] := by
+    intro o ho; simp at ho
+    rcases ho with rfl | rfl
+    · exact ⟨pre₁, post₁, rfl, by simp⟩
+    · exact ⟨pre₂, post₂, h, by simp⟩
+  have h1 := locFn_eq_spec pre₁ post₁ _ hv 0 (by simp)
+  simp [jsFrameLoc, h1, Spec.locate]
+
 end JrsVerif.Loc
 
 namespace JrsVerif.Tile
@@ -163,3 +268,62 @@ theorem tiling_lossless {α : Type} (xs : List α) (rs : List (Nat × Nat))
 example : tilesB 0 5 [(0, 2), (2, 2), (2, 5)] = true ∧ tilesB 0 5 [(0, 2), (3, 5)] = false := by decide
 
 end JrsVerif.Tile
+
+namespace JrsVerif.StrBlock
+open Spec JrsVerif.Loc
+
+/-- C17.11  the text-block scanner never slices inside a UTF-8 sequence and never bumps the lexer
+    past the end, for EVERY input (well-formed block or not, any mix of tabs, spaces, CR, blank
+    lines, multi-byte characters): the model has no panic outcome, and the number of bytes the
+    token is extended by is the byte length of a prefix of the remaining input. -/
+theorem strBlock_never_panics (src : List Char) :
+    ∃ o used rest, scan src = some o ∧ src = used ++ rest ∧ o.bump = byteLen used := by
+  obtain ⟨o, dash, s0, k, ho, hsrc, _, hb, hp, _⟩ := scanRaw_spec src
+  have hpre : Pre src o.bump := by rw [hb]; exact Pre.of_eq hsrc hp
+  obtain ⟨used, rest, h1, h2⟩ := hpre
+  have hd : (dropB src o.bump).isSome = true := Pre.dropB ⟨used, rest, h1, h2⟩
+  exact ⟨o, used, rest, by simp [scan, ho, hd], h1, h2⟩
+
+/-- C17.12  when the scanner accepts, it has consumed EXACTLY a text block of the reference grammar:
+    optional `-` (iff `truncate`), header whitespace, newline, content items written with a
+    non-empty indent `W` of spaces/tabs (`"\n"` for a blank line, `W ++ text ++ "\n"` otherwise),
+    spaces/tabs that do not continue the indent, `|||` — the bump is the byte length of exactly
+    that text and the collected lines are the items' texts. -/
+theorem strBlock_consumes_exactly (src : List Char) (o : Out) (h : scan src = some o) (hok : o.res = none) :
+    ∃ dash s0 k, src = dash ++ s0 ∧
+      (dash = ['-'] ∧ o.truncate = true ∨ dash = [] ∧ o.truncate = false ∧ ∀ t, src ≠ '-' :: t) ∧
+      o.bump = byteLen dash + k ∧ Block s0 k o.lines := by
+  obtain ⟨o', dash, s0, k, ho, hsrc, hd, hb, _, hg⟩ := scanRaw_spec src
+  have : o = o' := by
+    simp only [scan, ho] at h
+    split at h
+    · cases h; rfl
+    · cases h
+  subst this
+  exact ⟨dash, s0, k, hsrc, hd, hb, hg hok⟩
+
+/-- C17.13  the string the parser builds from the collected lines (`join("\n")`, plus a final newline
+    unless `|||-`) is the reference contents of the block: every item's text followed by a
+    newline, the last newline stripped for `|||-`. -/
+theorem strBlock_value (items : List Item) (tr : Bool) (h : items ≠ []) :
+    value (items.map Item.text) tr = Spec.contents items tr := by
+  cases items with
+  | nil => exact absurd rfl h
+  | cons i is =>
+    have hj := foldl_join (is.map Item.text) i.text
+    have e : ((i.text ++ ['\n']) :: List.map (fun i => i.text ++ ['\n']) is).flatten =
+        List.foldl (fun acc x => acc ++ ['\n'] ++ x) i.text (is.map Item.text) ++ ['\n'] := by
+      rw [hj]; simp [List.map_map, Function.comp_def]
+    cases tr
+    · simp only [value, Spec.contents, List.map_cons, Bool.false_eq_true, if_false]
+      exact e.symm
+    · simp only [value, Spec.contents, List.map_cons, if_true]
+      rw [e, List.dropLast_concat]
+
+/-- non-vacuity: `|||-⏎␉é⏎⏎␉␉x⏎ |||;` is accepted with bump 15 (`;` is left), lines "é", "", "␉x" -/
+example : scan "-\n\té\n\n\t\tx\n |||;".toList =
+    some ⟨none, 15, true, ["é".toList, [], "\tx".toList]⟩ := by decide
+
+example : value ["é".toList, [], "\tx".toList] true = "é\n\n\tx".toList := by decide
+
+end JrsVerif.StrBlock
